@@ -411,15 +411,17 @@ pub trait ServerAccountStorage: StorageEventLogs {
             forall|u: EventLogType| #[trigger] final(self).logv(u) == old(self).logv(u);
     /// `&self.folders`
     fn folders(&self) -> (r: &VFolders)
-        ensures forall|id: VaultId| r.logs().contains_key(id) ==> #[trigger] r.logs()[id] == self.logv(EventLogType::Folder(id));
-    /// `&mut self.folders`
+        ensures forall|u: EventLogType| u is Folder && r.logs().contains_key(u->Folder_0) ==> r.logs()[u->Folder_0] == #[trigger] self.logv(u);
+    /// `&mut self.folders`: the folder logs in the map are lent; what is written through the
+    /// map is the storage's new state for those folder logs; nothing else changes
     fn folders_mut(&mut self) -> (r: &mut VFolders)
         ensures
             r.asked() == Set::<EventLogType>::empty(),
-            forall|id: VaultId| r.logs().contains_key(id) ==> #[trigger] r.logs()[id] == old(self).logv(EventLogType::Folder(id)),
-            forall|id: VaultId| final(r).logs().contains_key(id) ==> #[trigger] final(self).logv(EventLogType::Folder(id)) == final(r).logs()[id],
-            forall|id: VaultId| !final(r).logs().contains_key(id) && !r.logs().contains_key(id) ==> #[trigger] final(self).logv(EventLogType::Folder(id)) == old(self).logv(EventLogType::Folder(id)),
-            forall|u: EventLogType| !(u is Folder) ==> #[trigger] final(self).logv(u) == old(self).logv(u),
+            forall|u: EventLogType| u is Folder && r.logs().contains_key(u->Folder_0) ==> r.logs()[u->Folder_0] == #[trigger] old(self).logv(u),
+            forall|u: EventLogType| #[trigger] final(self).logv(u) == (
+                if u is Folder && final(r).logs().contains_key(u->Folder_0) { final(r).logs()[u->Folder_0] }
+                else if u is Folder && r.logs().contains_key(u->Folder_0) { Seq::<Rec>::empty() }
+                else { old(self).logv(u) }),
             final(self).touched() == old(self).touched().union(final(r).asked()),
             final(self).cache() == old(self).cache();
     /// renames the login folder / account row; no event log is written
